@@ -88,6 +88,9 @@ pub struct Failure {
     pub origin: String,
 }
 
+static CONFIRMED_HANGS: std::sync::atomic::AtomicUsize = std::sync::atomic::AtomicUsize::new(0);
+use std::sync::atomic::Ordering;
+
 /// Evaluate one case with watchdog + confirmation. Returns the outcome (a hang or crash is
 /// converted into a violation outcome) and whether the case was slow-but-finished.
 fn eval_confirmed(
@@ -100,11 +103,18 @@ fn eval_confirmed(
     match w.eval(case, timeout_ms) {
         EvalResult::Done(o) => (o, false),
         EvalResult::Hang => {
+            // how many hangs this run has already confirmed with the long limit: once two are
+            // on record the verdict of the run is settled, and code that hangs on (nearly)
+            // everything would otherwise cost two minutes per case - later confirmations use a
+            // 3x limit
+            let factor = if CONFIRMED_HANGS.load(Ordering::Relaxed) >= 2 { 3 } else { 10 };
             if confirm {
-                // fresh process (the worker was respawned), 10x longer limit
-                match w.eval(case, timeout_ms.saturating_mul(10)) {
+                // fresh process (the worker was respawned), longer limit
+                match w.eval(case, timeout_ms.saturating_mul(factor)) {
                     EvalResult::Done(o) => return (o, true),
-                    EvalResult::Hang => {}
+                    EvalResult::Hang => {
+                        CONFIRMED_HANGS.fetch_add(1, Ordering::Relaxed);
+                    }
                     EvalResult::Crash(m) => return (crash_outcome(prop, case, &m), false),
                 }
             }
@@ -116,8 +126,10 @@ fn eval_confirmed(
                 format!(
                     "no answer within {} ms{}",
                     timeout_ms,
-                    if confirm {
+                    if confirm && factor == 10 {
                         " and within 10x that in a fresh process"
+                    } else if confirm {
+                        " and within 3x that in a fresh process (after two hangs confirmed with 10x)"
                     } else {
                         ""
                     }
@@ -144,6 +156,7 @@ struct LaneState {
     stats: Stats,
     first_fail: Option<(Value, Verdict)>,
     last_fail: Option<(Value, Verdict)>,
+    shrink_started: Option<Instant>,
 }
 
 fn run_lane(
@@ -206,6 +219,7 @@ fn run_lane(
         stats,
         first_fail: None,
         last_fail: None,
+        shrink_started: None,
     });
     let worker = RefCell::new(worker);
     let tier = cfg.tier;
@@ -214,6 +228,16 @@ fn run_lane(
     let result = runner.run(&strategy, |choices| {
         let case = prop.decode(&choices, tier);
         let shrinking = state.borrow().first_fail.is_some();
+        // a hang is not worth minimising for long: every candidate that still hangs costs a
+        // whole watchdog period; after 90 s the remaining candidates are waved through and the
+        // smallest hanging case seen so far is reported
+        if shrinking {
+            let st = state.borrow();
+            let is_hang = matches!(st.first_fail.as_ref().map(|(_, v)| v), Some(Verdict::Violation { kind, .. }) if kind == "hang");
+            if is_hang && st.shrink_started.map(|t| t.elapsed().as_secs() > 90).unwrap_or(false) {
+                return Ok(());
+            }
+        }
         let (o, slow) = if shrinking {
             eval_confirmed(prop, &mut worker.borrow_mut(), &case, shrink_watchdog, false)
         } else {
@@ -239,6 +263,7 @@ fn run_lane(
                 }
             } else {
                 st.first_fail = Some((case.clone(), o.verdict.clone()));
+                st.shrink_started = Some(Instant::now());
             }
             st.last_fail = Some((case, o.verdict.clone()));
             return Err(TestCaseError::fail(sig.to_string()));
@@ -256,6 +281,7 @@ fn run_lane(
         stats,
         first_fail,
         last_fail,
+        ..
     } = state.into_inner();
     let mut worker = worker.into_inner();
     match result {
